@@ -54,6 +54,34 @@ CLAIMED = {
             "TSO model is proved but not trace-tied); layering assumptions listed in evidence.assumptions; evidence.coverage."
             "theorem_layers_included says which theorem files this run covered.",
             "DESIGN.md 6 C02"),
+    "C06": ("Coq invariant + ghost counters over the T1K stack-machine model with client Sem.v; lock-step trace correspondence on the T1 machine",
+            "Machine-checked theorems over every reachable state of the model of src/fiber_semaphore.c running on the real fiber_manager.c wait/wake "
+            "code (T1 machine; MPMC waiter queue atomic by C13), for all initial values >= 0, any number of fibers, programs and schedules: no "
+            "over-admission (succeeded <= init + posts begun), exact counter equation, trywait never blocks and succeeds only by its own CAS from a "
+            "positive value, a blocked waiter with units available implies a post in progress, value at quiescence. Tied to /repo on every run by "
+            "per-access trace comparison of the instrumented fiber_semaphore.c + fiber_manager.c + fiber.c with the extracted model.",
+            "Trusts: Coq kernel; extraction + driver; rt/rt.c, rt/t1.c (context switch, run queues, event layer replaced: given C01 and C02); MPMC queue "
+            "operations atomic (C13); SC interleaving; -O0 build.",
+            "DESIGN.md 6 C06, 12.1"),
+    "C15": ("Coq invariants + ghost push/pop logs over access-granularity models of the three queues; lock-step trace correspondence",
+            "Machine-checked theorems over every reachable state of executable models of mpsc_fifo.h, spsc_fifo.h and mpsc_relaxed_fifo.h (any number "
+            "of producers, one consumer, any programs respecting node ownership, any schedule): returned values are exactly a prefix of the pushed "
+            "values in tail-exchange order (per queue for the relaxed MPSC), per-producer program order, only pushed values are returned, NULL only "
+            "when empty or the oldest push has not linked, the returned node is unreachable from the queue, the relaxed queue reports NULL only after "
+            "a NULL visit of every sub-queue. Tied to /repo on every run by per-access trace comparison of the three headers with the extracted models.",
+            "Trusts: Coq kernel; extraction + driver; rt/rt.c + gcc TSan instrumentation; SC interleaving (the plain volatile accesses of mpsc_fifo are a "
+            "formal C11 race outside the model); -O0 build; single-consumer discipline; round-robin counter below 2^64.",
+            "DESIGN.md 6 C15"),
+    "C20": ("Coq invariants + sequential-replay histories over access-granularity models of the four double-word-CAS structures; lock-step trace "
+            "correspondence through the guarded DCAS hook",
+            "Machine-checked theorems over every reachable state of executable models of mpmc_lifo.h, mpmc_stack.h, dist_fifo.h and the multi-waiter "
+            "signal (any number of threads, any programs respecting node ownership, immediate adversarial node reuse, any schedule): a successful DCAS "
+            "implies the snapshot it used was current (ABA safety), the history replays as a sequential stack / flush-all stack / FIFO / "
+            "(waiters, raised) specification, every node is in exactly one place, a raise releases exactly one waiter or is remembered. Tied to /repo on "
+            "every run by per-access trace comparison (the cmpxchg16b is a scheduling point through the LIBFIBER_VERIF hook) incl. ABA recycle schedules.",
+            "Trusts: Coq kernel; extraction + driver; rt/rt.c + DCAS hook; SC interleaving; -O0 build; fewer than 2^64 updates between a counter load "
+            "and its DCAS; multi-signal waits run on a thread-with-sleep abstraction (given C01/C02).",
+            "DESIGN.md 6 C20"),
 }
 
 NOT_YET = "model and proof not built yet in this development (see DESIGN.md 6 for the plan); not claimed until a check exists"
